@@ -220,6 +220,22 @@ pub fn tls_connect(addr: SocketAddr, sni: &str, alpn: &[&str]) -> std::io::Resul
     Ok((tls, TlsInfo { leaf }))
 }
 
+/// TLS client state over an already connected socket (certificate accepted, never verified); the
+/// handshake is NOT driven: the caller does (a client that may have to wait for the server's attention).
+pub fn tls_client(sock: TcpStream, sni: &str, alpn: &[&str]) -> std::io::Result<StreamOwned<ClientConnection, TcpStream>> {
+    let leaf = Arc::new(std::sync::Mutex::new(vec![]));
+    let mut cfg = ClientConfig::builder_with_provider(Arc::new(rustls::crypto::ring::default_provider()))
+        .with_safe_default_protocol_versions()
+        .map_err(|e| std::io::Error::other(e.to_string()))?
+        .dangerous()
+        .with_custom_certificate_verifier(Arc::new(AcceptAny(leaf)))
+        .with_no_client_auth();
+    cfg.alpn_protocols = alpn.iter().map(|a| a.as_bytes().to_vec()).collect();
+    let name = ServerName::try_from(sni.to_string()).map_err(|e| std::io::Error::other(e.to_string()))?;
+    let conn = ClientConnection::new(Arc::new(cfg), name).map_err(|e| std::io::Error::other(e.to_string()))?;
+    Ok(StreamOwned::new(conn, sock))
+}
+
 // ------------------------------------------------------------------ connection
 
 #[derive(Clone, Debug)]
